@@ -209,7 +209,7 @@ def mMon (m : MSt) (op : List String) (_ : List (List String)) (obs : Option Str
   | .one o => (note m o, [])
 
 def comp : Component (Bool × St String) MSt where
-  init := fun args => ((kv args "register") == some "keep", {})
+  init := fun args => ((kv args "register") != some "reset", {})
   step := mStep
   minit := fun _ => []
   mon := mMon
